@@ -74,21 +74,20 @@ Section Gen.
      particular a NaN anywhere (partial_cmp = None) makes it fail *)
   Lemma assert_eq3_struct l r eps :
     p_assert_eq3 N tbl res keys l r eps = Continue ->
-    exists lc rc d e',
+    exists lc rc d,
       convert_to N tbl res keys l (q_unit eps) = Ok lc
       /\ convert_to N tbl res keys r (q_unit eps) = Ok rc
       /\ qsub N tbl res keys lc rc = Ok d
-      /\ convert_to N tbl res keys eps (q_unit d) = Ok e'
-      /\ (n_cmp N (n_abs N (q_val d)) (q_val e') = Some Lt \/ n_cmp N (n_abs N (q_val d)) (q_val e') = Some Eq).
+      /\ (q_partial_cmp N tbl res keys (qabs N d) eps = Some Lt
+          \/ q_partial_cmp N tbl res keys (qabs N d) eps = Some Eq).
   Proof.
     unfold p_assert_eq3.
     destruct (convert_to N tbl res keys l (q_unit eps)) as [lc|] eqn:E1; [|discriminate].
     destruct (convert_to N tbl res keys r (q_unit eps)) as [rc|] eqn:E2; [|discriminate].
     destruct (qsub N tbl res keys lc rc) as [d|] eqn:E3; [|discriminate].
-    unfold q_le, q_partial_cmp. simpl.
-    destruct (convert_to N tbl res keys eps (q_unit d)) as [e'|] eqn:E4; [|discriminate].
-    destruct (n_cmp N (n_abs N (q_val d)) (q_val e')) as [[]|] eqn:E; try discriminate; intros _;
-      exists lc, rc, d, e'; repeat split; try reflexivity; auto.
+    unfold q_le.
+    destruct (q_partial_cmp N tbl res keys (qabs N d) eps) as [[]|] eqn:E; try discriminate; intros _;
+      exists lc, rc, d; repeat split; try reflexivity; auto.
   Qed.
 End Gen.
 
@@ -154,13 +153,17 @@ Section Exact.
     destruct (convert_to_sound tbl res keys scale_pos _ _ _ Hl He Cl) as (Ul & _ & _ & Vl & _).
     destruct (convert_to_sound tbl res keys scale_pos _ _ _ Hr He Cr) as (Ur & _ & _ & Vr & _).
     destruct (qsub_same_unit lc rc) as (d & Ed & Ud & Vd); [congruence|].
-    rewrite Ed. unfold q_le, q_partial_cmp. simpl.
-    rewrite convert_same by (rewrite Ud, Ul; apply unit_eq_refl). simpl.
+    rewrite Ed. unfold q_le, q_partial_cmp.
+    assert (Hd : unit_int (q_unit (qabs QcN d)) = true) by (simpl; rewrite Ud, Ul; exact He).
+    assert (Ce : convert_to QcN tbl res keys eps (q_unit (qabs QcN d)) = Ok (qnew (q_val eps) (q_unit (qabs QcN d)))).
+    { apply convert_same. simpl. rewrite Ud, Ul. apply unit_eq_refl. }
+    destruct (sym_cmp_ok tbl res keys (qabs QcN d) eps _ Ce) as (o & So). rewrite So.
+    rewrite (sym_cmp_exact tbl res keys scale_pos (qabs QcN d) eps o Hd He So).
     pose proof (Den_pos res scale_pos _ He) as Dp.
-    assert (E : Qc_abs (DenQ res l - DenQ res r) = Qc_abs (q_val d) * Den res (q_unit eps)).
-    { rewrite <- Qc_abs_scale by exact Dp. f_equal. unfold DenQ. rewrite <- Vl, <- Vr, Vd. ring. }
-    rewrite E. unfold DenQ at 1. rewrite (Qc_cmp_mult_pos _ _ _ Dp).
-    fold (Qc_abs (q_val d)).
-    destruct (Qc_cmp (Qc_abs (q_val d)) (q_val eps)); split; congruence.
+    assert (E : Qc_abs (DenQ res l - DenQ res r) = DenQ res (qabs QcN d)).
+    { unfold DenQ at 3. simpl. rewrite Ud, Ul. fold (Qc_abs (q_val d)).
+      rewrite <- Qc_abs_scale by exact Dp. f_equal. unfold DenQ. rewrite <- Vl, <- Vr, Vd. ring. }
+    rewrite E.
+    destruct (Qc_cmp (DenQ res (qabs QcN d)) (DenQ res eps)); split; congruence.
   Qed.
 End Exact.
